@@ -59,7 +59,8 @@ Section Analysis.
     t_cmat : list (list F);           (* network.constraint_matrix *)
     t_evh : list (F * F);             (* ev_history values in order: (requested_energy, energy_delivered) *)
     t_iter : nat;                     (* sim.iteration *)
-    t_period : F
+    t_period : F;
+    t_cmat_present : bool             (* network.constraint_matrix is not None (a constraint was added at some time) *)
   }.
 
   (* ------------------------------------------------------------ aggregate_current / aggregate_power *)
@@ -125,6 +126,12 @@ Section Analysis.
                  end in
     dict_of (combine names out).
 
+  (* the call as the code executes it: on a network that never had a constraint, constraint_matrix is None
+     and `self.constraint_matrix[constraint_indices]` raises TypeError (None = raises) *)
+  Definition constraint_currents_call (tr : traj) (return_magnitudes : bool) (ids : option (list Z))
+    : option (list (Z * series)) :=
+    if t_cmat_present tr then Some (constraint_currents tr return_magnitudes ids) else None.
+
   (* SPEC: the phase-aware weighted sum of constraint row j in period t *)
   Definition cc_re_spec (tr : traj) (j t : nat) : F :=
     fsumA (map (fun p => fst (fst p) *' (fst (snd (fst p)) *' nth t (snd p) z0))
@@ -174,6 +181,9 @@ Section Analysis.
                   (combine mx mean))
     end.
 
+  Definition current_unbalance_call (tr : traj) (phase_ids : list Z) : option (list (option F)) :=
+    if t_cmat_present tr then current_unbalance tr phase_ids else None.
+
   (* SPEC: NEMA for three phase currents *)
   Definition nema_spec (ia ib ic : F) : option F :=
     let mean := (ia +' (ib +' ic)) /' oofZ O 3 in
@@ -195,5 +205,5 @@ End Analysis.
 
 Arguments mk_traj {F}. Arguments t_width {F}. Arguments t_rates {F}. Arguments t_volts {F}.
 Arguments t_phasor {F}. Arguments t_cindex {F}. Arguments t_cmat {F}. Arguments t_evh {F}.
-Arguments t_iter {F}. Arguments t_period {F}.
+Arguments t_iter {F}. Arguments t_period {F}. Arguments t_cmat_present {F}.
 Arguments Mag {F}. Arguments Cplx {F}.
